@@ -62,7 +62,10 @@ TRUSTED = [
     "reference spectrum: Eigen::SelfAdjointEigenSolver on the model's matrix (independent of tapkee's front-ends)",
     "neighbour search itself is C02's property: the end-to-end stream uses the lists find_neighbors returns",
     "translators (regex grammars, trusted to report what the source says): translate/t_hlle.py -> gen/HlleLoop.v "
-    "(HLLE product loop; self-test with seeded edits in the thorough tier), translate/t_eig.py (C05) -> gen/EigSelect.v",
+    "(HLLE product loop; self-test with seeded edits in the thorough tier), translate/t_eig.py (C05) -> gen/EigSelect.v, "
+    "translate/t_lle_calls.py -> gen/LleCalls.v (argument lists of the routine / find_neighbors_with / "
+    "eigendecomposition_via calls in embed() of the three method classes and the routines' parameter names; "
+    "obligation C08_method_calls_table; self-test in the thorough tier)",
     "g++ ASan/UBSan/_GLIBCXX_ASSERTIONS as the memory-safety observer (HLLE column bookkeeping, F6; eigenvalue slice, F7)",
 ]
 
@@ -1319,7 +1322,8 @@ def evaluate(ctx, exe, mexe, cases, stats):
         if not (abs(lam[d] - mu) <= 1e-9 * top and lam[d + 1] - mu > 1e-5 * top):
             continue
         # the local projectors are exact up to cond_tol, the bottom eigenspace of M moves by that over its gap
-        tol_aff = max(1e-5, cond_tol(len(nb[0]), fcond) / (lam[d + 1] - mu))
+        gs = hlle_min_conditioning(c, nb, res["mats"]) if c["meth"] == "hlle" else 1.0
+        tol_aff = max(1e-5, cond_tol(len(nb[0]), fcond) / max(gs, 1e-4) / (lam[d + 1] - mu))
         if tol_aff > 1e-2:
             stats.counts["emb_affine_ill_conditioned"] += 1
             continue
@@ -1452,7 +1456,7 @@ SEARCH = {"lle": 80, "lle_scaled": 40, "ltsa": 50, "ltsa_scaled": 15, "ltsa_anis
           "emb_aniso": 8, "small_k": 4}
 
 
-GEN_FILES = (("t_hlle", "HlleLoop.v"), ("t_eig", "EigSelect.v"))
+GEN_FILES = (("t_hlle", "HlleLoop.v"), ("t_eig", "EigSelect.v"), ("t_lle_calls", "LleCalls.v"))
 
 
 def translate(ctx, self_test=False):
@@ -1470,10 +1474,10 @@ def translate(ctx, self_test=False):
             texts[out] = text
             changed = t.write_if_changed(os.path.join(ctx.verif, "coq", "gen", out), text)
             ctx.note("%s: table %s" % (mod, "rewritten" if changed else "unchanged"))
-            if self_test and mod == "t_hlle":
+            if self_test and mod in ("t_hlle", "t_lle_calls"):
                 bad = t.self_test(ctx.repo)
                 if bad:
-                    ctx.unshown("translator t_hlle self-test: seeded edits not detected: %s" % bad)
+                    ctx.unshown("translator %s self-test: seeded edits not detected: %s" % (mod, bad))
         except OSError as ex:
             ctx.unshown("translator %s: cannot read the source: %s" % (mod, ex))
         except Exception as ex:      # TranslateError of either module
